@@ -483,6 +483,26 @@ def run_session(path, ops, snap=False):
     return errs, read_bytes(path), snaps
 
 
+def run_abandoned(path, ops):
+    """drive the real GroFile through `ops` (no close among them) and then ABANDON the writer: the last
+    reference is dropped and the garbage collector runs — what happens to the object when the program
+    moves on or unwinds after an error.  Returns the bytes then on disk.  (Seed C14-3: a finaliser that
+    'helpfully' closes — i.e. completes — the file of an abandoned writer.)"""
+    import gc
+    from gaddlemaps.parsers import GroFile
+    with warnings.catch_warnings():
+        warnings.simplefilter("ignore")
+        g = GroFile(path, "w")
+        for op in ops:
+            try:
+                apply_op(g, op)
+            except Exception:           # noqa: BLE001
+                pass
+        del g
+        gc.collect()
+    return read_bytes(path)
+
+
 def read_back(path):
     """open with the real reader and read everything; exceptions mapped to class names"""
     from gaddlemaps.parsers import GroFile
